@@ -98,6 +98,12 @@ func (g *Generator) makeNullableSchema(schemaProxy *base.SchemaProxy) *base.Sche
 		builtSchema.Type = append(builtSchema.Type, "null")
 	}
 
+	// An enum keyword restricts the value independently of the type: the null the server
+	// writes for an unset nullable enum field has to be one of the listed values too.
+	if len(builtSchema.Enum) > 0 {
+		builtSchema.Enum = append(builtSchema.Enum, &yaml.Node{Kind: yaml.ScalarNode, Tag: "!!null", Value: "null"})
+	}
+
 	return base.CreateSchemaProxy(builtSchema)
 }
 
